@@ -1,4 +1,5 @@
 import QeepProps.C03
+import QeepProps.C06
 import QeepProofs.MatMul
 import QeepProofs.Along
 import QeepProofs.ValueOps
@@ -97,5 +98,157 @@ theorem sum_along2 [Scalar α] (N O D : Nat) (y : List α) (hN : 0 < N) (hO : 0 
       simpa using this
     rw [hat, f3]
     simp [Tensor.sum, Tensor.fold]
+
+end Qeep
+
+namespace Qeep
+variable {α : Type} [Scalar α]
+
+/-- the FC forward composition on values -/
+def fcV (W Bv X : Tensor α) : Out (Tensor α) := do
+  let w1 ← vUnSqueeze W 1
+  let x1 ← vUnSqueeze X 1
+  let y ← vMatMul w1 x1
+  let s ← vAlong .sum y 2
+  vArith .add s Bv
+
+theorem at?_rank2' (m n : Nat) (a : List α) (i p : Nat) (hi : i < m) (hp : p < n) :
+    (⟨[m, n], a⟩ : Tensor α).at? [i, p] = a[i * n + p]? := by
+  simp [Tensor.at?, offset, hi, hp, prod]
+
+theorem idx2_lt {N O b o : Nat} (hb : b < N) (ho : o < O) : b * O + o < N * O := by
+  calc b * O + o < b * O + O := by omega
+    _ = (b + 1) * O := by rw [Nat.add_mul]; omega
+    _ ≤ N * O := Nat.mul_le_mul_right _ hb
+
+/-- **FC forward formula** (value level): `y[b][o] = (Σ_d (0 + W[o]·x[b][d])) + B[o]`, dims `[N, O]`, no error, no
+    panic — for every batch size `N`, feature count `D` and output count `O` (all ≥ 1) and all values. -/
+theorem fcV_spec (N D O : Nat) (w bv xd : List α) (hN : 0 < N) (hD : 0 < D) (hO : 0 < O)
+    (hw : w.length = O) (hb : bv.length = O) (hx : xd.length = N * D)
+    (Wf Bf : Nat → α) (Xf : Nat → Nat → α)
+    (hW : ∀ o, o < O → w[o]? = some (Wf o)) (hB : ∀ o, o < O → bv[o]? = some (Bf o))
+    (hX : ∀ b d, b < N → d < D → xd[b * D + d]? = some (Xf b d)) :
+    ∃ data, fcV (⟨[O], w⟩ : Tensor α) ⟨[O], bv⟩ ⟨[N, D], xd⟩ = .ok ⟨[N, O], data⟩ ∧ data.length = N * O ∧
+      ∀ b o, b < N → o < O →
+        (⟨[N, O], data⟩ : Tensor α).at? [b, o] =
+          some (Scalar.add
+            (((List.range D).map (fun d => Scalar.add Scalar.zero (Scalar.mul (Wf o) (Xf b d)))).foldl Scalar.add Scalar.zero)
+            (Bf o)) := by
+  have wW : (⟨[O], w⟩ : Tensor α).WF := ⟨by simp [prod, hw], by simp; omega⟩
+  have wX : (⟨[N, D], xd⟩ : Tensor α).WF := ⟨by simp [prod, hx], by simp; omega⟩
+  have wB : (⟨[O], bv⟩ : Tensor α).WF := ⟨by simp [prod, hb], by simp; omega⟩
+  -- 1, 2: the two UnSqueeze calls
+  have hu1 : vUnSqueeze (⟨[O], w⟩ : Tensor α) 1 = .ok ⟨[O, 1], w⟩ := by
+    have hv : validUnSqueeze 1 [O] = true := by simp [validUnSqueeze]
+    have := C06.unsqueeze_data (⟨[O], w⟩ : Tensor α) wW 1
+    simp [vUnSqueeze, hv, this, Out.ofOpt, unsqueezeDims]
+  have hu2 : vUnSqueeze (⟨[N, D], xd⟩ : Tensor α) 1 = .ok ⟨[N, 1, D], xd⟩ := by
+    have hv : validUnSqueeze 1 [N, D] = true := by simp [validUnSqueeze]
+    have := C06.unsqueeze_data (⟨[N, D], xd⟩ : Tensor α) wX 1
+    simp [vUnSqueeze, hv, this, Out.ofOpt, unsqueezeDims]
+  -- 3: MatMul with the batch expansion of W
+  obtain ⟨da, ba1, ba2, ba3⟩ := bcast_lead N O w hN hO hw
+  have wX1 : (⟨[N, 1, D], xd⟩ : Tensor α).WF := ⟨by simp [prod, hx], by simp; omega⟩
+  have htb : targetBroadcastDims [O, 1] [N, 1, D] = [N, O, D] := by
+    simp only [targetBroadcastDims, List.reverse_cons, List.reverse_nil, List.nil_append, List.cons_append, targetBroadcastLE]
+    have h1 : ¬ (1 > D) := by omega
+    have h2 : (if O > 1 then O else 1) = O := by split <;> omega
+    simp [h1, h2]
+  have hbp : vBroadcastPairMM (⟨[O, 1], w⟩ : Tensor α) ⟨[N, 1, D], xd⟩ = .ok (⟨[N, O, 1], da⟩, ⟨[N, 1, D], xd⟩) := by
+    have e1 : vBroadcastN (⟨[O, 1], w⟩ : Tensor α) [N, O, 1] = .ok ⟨[N, O, 1], da⟩ := by
+      unfold vBroadcastN vBroadcast
+      have hp : validInputDims ([N, O, 1].map Int.ofNat) = true := validInputDims_ofNat _ (by simp; omega)
+      have hv : validBroadcast [O, 1] [N, O, 1] = true := by simp [validBroadcast, validBroadcastLE]
+      rw [hp, natDims_ofNat, hv]
+      simp only [Bool.and_self, if_true, ba1, Out.ofOpt]
+    have e2 := vBroadcastN_self (⟨[N, 1, D], xd⟩ : Tensor α) wX1
+    have m1 : matMulShape [N, O, D] [O, 1] = [N, O, 1] := rfl
+    have m2 : matMulShape [N, O, D] [N, 1, D] = [N, 1, D] := rfl
+    unfold vBroadcastPairMM
+    simp only [htb, m1, m2, bind, Out.bind, e1]
+    rw [e2]; rfl
+  have hda : da.length = prod ([N] ++ [O, 1]) := by simp [prod, ba2]
+  have hxd : xd.length = prod ([N] ++ [1, D]) := by simp [prod, hx]
+  obtain ⟨yd, my1, my2, my3⟩ := matMulRaw_spec [N] O 1 D da xd (by simp; omega) hO (by omega) hD hda hxd
+    (fun pre i _ => Wf i) (fun pre _ j => Xf (pre.headD 0) j)
+    (by
+      intro pre i p hv hi hp
+      cases hv with
+      | cons hb0 hrest =>
+        cases hrest
+        have hp0 : p = 0 := by omega
+        subst hp0
+        rename_i b0
+        have := (ba3 b0 i hb0 hi).1
+        simp only [List.cons_append, List.nil_append] at this ⊢
+        rw [this, hW i hi])
+    (by
+      intro pre p j hv hp hj
+      cases hv with
+      | cons hb0 hrest =>
+        cases hrest
+        have hp0 : p = 0 := by omega
+        subst hp0
+        rename_i b0
+        simp only [List.cons_append, List.nil_append, List.headD_cons]
+        rw [at?_rank3 N 1 D xd b0 0 j hb0 (by omega) hj]
+        have : b0 * (1 * D) + (0 * D + j) = b0 * D + j := by simp
+        rw [this, hX b0 j hb0 hj])
+  have hmm : vMatMul (⟨[O, 1], w⟩ : Tensor α) ⟨[N, 1, D], xd⟩ = .ok ⟨[N, O, D], yd⟩ := by
+    have hv : validMatMul [O, 1] [N, 1, D] = true := by simp [validMatMul]
+    simp only [vMatMul, hv, if_true, bind, Out.bind, hbp]
+    have : (⟨[N, O, 1], da⟩ : Tensor α).matMulRaw ⟨[N, 1, D], xd⟩ = some ⟨[N, O, D], yd⟩ := my1
+    rw [this]; rfl
+  -- 4: SumAlong(2)
+  have hyl : yd.length = N * (O * D) := by simpa [prod] using my2
+  obtain ⟨sd, s1, s2, s3⟩ := sum_along2 N O D yd hN hO hD hyl
+  have hsum : vAlong .sum (⟨[N, O, D], yd⟩ : Tensor α) 2 = .ok ⟨[N, O], sd⟩ := by
+    have hv : validDimLt 2 [N, O, D] = true := by simp [validDimLt]
+    simp [vAlong, vReduceDim, hv, Reducer.fn, s1, Out.ofOpt]
+  -- 5: Add(B) with the row expansion of B
+  obtain ⟨db, bb1, bb2, bb3⟩ := bcast_row N O bv hN hO hb
+  have wS : (⟨[N, O], sd⟩ : Tensor α).WF := ⟨by simp [prod, s2], by simp; omega⟩
+  have htb2 : targetBroadcastDims [N, O] [O] = [N, O] := by
+    simp [targetBroadcastDims, targetBroadcastLE]
+  have hadd : vArith .add (⟨[N, O], sd⟩ : Tensor α) ⟨[O], bv⟩ = .ok ⟨[N, O], List.zipWith Scalar.add sd db⟩ := by
+    unfold vArith vBroadcastPair
+    simp only [htb2, bind, Out.bind]
+    rw [vBroadcastN_self _ wS]
+    simp only []
+    have e2 : vBroadcastN (⟨[O], bv⟩ : Tensor α) [N, O] = .ok ⟨[N, O], db⟩ := by
+      unfold vBroadcastN vBroadcast
+      have hp : validInputDims ([N, O].map Int.ofNat) = true := validInputDims_ofNat _ (by simp; omega)
+      have hv : validBroadcast [O] [N, O] = true := by simp [validBroadcast, validBroadcastLE]
+      rw [hp, natDims_ofNat, hv]
+      simp only [Bool.and_self, if_true, bb1, Out.ofOpt]
+    rw [e2]
+    simp [pure, Tensor.zipRaw, s2, bb2, Arith.fn, Out.ofOpt]
+  refine ⟨List.zipWith Scalar.add sd db, ?_, by simp [s2, bb2], ?_⟩
+  · unfold fcV
+    simp only [bind, Out.bind, hu1, hu2, hmm, hsum]
+    exact hadd
+  · intro b o hb0 ho
+    obtain ⟨fib, f1, f2, f3⟩ := s3 b o hb0 ho
+    have hidx := idx2_lt hb0 ho
+    rw [at?_rank2' N O _ b o hb0 ho, List.getElem?_zipWith]
+    have hs : sd[b * O + o]? = some (fib.foldl Scalar.add Scalar.zero) := by
+      rw [← at?_rank2' N O sd b o hb0 ho]; exact f3
+    have hdb : db[b * O + o]? = some (Bf o) := by
+      rw [← at?_rank2' N O db b o hb0 ho, (bb3 b o hb0 ho).1, hB o ho]
+    rw [hs, hdb]
+    simp only [Option.map_some, Option.bind_some]
+    congr 2
+    -- the fibre is the list of products
+    have hfib : fib = (List.range D).map (fun d => Scalar.add Scalar.zero (Scalar.mul (Wf o) (Xf b d))) := by
+      apply List.ext_getElem?
+      intro d
+      by_cases hd : d < D
+      · rw [(f2 d hd).1]
+        have := my3 [b] o d (.cons hb0 .nil) ho hd
+        simp only [List.cons_append, List.nil_append] at this
+        rw [this]
+        simp [List.getElem?_map, List.getElem?_range hd]
+      · rw [List.getElem?_eq_none (by omega), List.getElem?_eq_none (by simp; omega)]
+    rw [hfib]
 
 end Qeep
